@@ -53,8 +53,12 @@ func (r *Report) Add(rule, construct, pos string, ok bool, detail string, extra 
 	r.Counts["obl:"+rule]++
 }
 
-func (r *Report) Pass(rule, construct, pos, detail string) { r.Add(rule, construct, pos, true, detail, nil) }
-func (r *Report) Fail(rule, construct, pos, detail string) { r.Add(rule, construct, pos, false, detail, nil) }
+func (r *Report) Pass(rule, construct, pos, detail string) {
+	r.Add(rule, construct, pos, true, detail, nil)
+}
+func (r *Report) Fail(rule, construct, pos, detail string) {
+	r.Add(rule, construct, pos, false, detail, nil)
+}
 
 // Floor declares that counter name must reach at least n.
 func (r *Report) Floor(name string, n int) { r.Floors[name] = n }
@@ -95,6 +99,10 @@ func LoadKnown(path string) (*Known, error) {
 // Finish checks floors, writes evidence and replay files, prints the protocol
 // lines and returns the exit code.
 func (r *Report) Finish(verifDir string, known *Known) int {
+	if r.Trusted == nil {
+		r.Trusted = []string{}
+	}
+	r.Assumptions = append(append([]string{}, r.Assumptions...), r.Trusted...)
 	// floors: an instance count below what was confirmed by hand fails
 	var floorNames []string
 	for n := range r.Floors {
@@ -198,13 +206,6 @@ func (r *Report) Finish(verifDir string, known *Known) int {
 		failing = failing[:200]
 	}
 	cov["failing"] = failing
-	if r.Assumptions == nil {
-		r.Assumptions = []string{}
-	}
-	if r.Trusted == nil {
-		r.Trusted = []string{}
-	}
-	r.Assumptions = append(r.Assumptions, r.Trusted...)
 	ev := map[string]any{
 		"property_id": r.Property,
 		"tier":        r.Tier,
